@@ -190,7 +190,7 @@ pub fn run(tier: &str) -> i32 {
             blanks.push(c(&format!("{}{}", r, s)));
         }
     }
-    let max_n = if thorough { 10 } else { 8 };
+    let max_n = 10;
     let mut seqs: Vec<Vec<u8>> = vec![];
     for n in 5..=max_n {
         for code in 0..(4u32.pow(n as u32)) {
@@ -254,7 +254,7 @@ pub fn run(tier: &str) -> i32 {
     }
     rep.sub(
         "full-table",
-        "board 2s3d4h5c7s, 5..=N players (N = 8 quick, 10 thorough), every sequence of player types {six: top straight, ace: wheel, seven: pair, blank} the deck can supply; distinct_nontrivial = distinct (player count, set of winning seats) realised",
+        "board 2s3d4h5c7s, 5..=10 players, every sequence of player types {six: top straight, ace: wheel, seven: pair, blank} the deck can supply; distinct_nontrivial = distinct (player count, set of winning seats) realised",
         seqs.len() as u64,
         winner_sets.len() as u64,
         false,
@@ -313,8 +313,74 @@ pub fn run(tier: &str) -> i32 {
     }
     rep.sub("collision", "for 1..=4 players, every player slot, both card slots and each of the five board cards: a hole card on the board must give no showdown", n_e, n_e, true, json!({}));
 
+
+    // (f) same two ranks in every suit combination, on boards with two, three, four and five cards of one suit
+    {
+        let boards = ["Ks9s4h7d2c", "Ks9s4s7d2h", "Ks9s4s7s2h", "Ks9s4s7s2s", "Kh9s4s7d2s", "KsKh4s7s2d", "Qs9s4s7d7h"];
+        let mut combos: Vec<(u8, u8)> = vec![];
+        for (ra, rb) in [("A", "Q"), ("A", "A"), ("8", "3")] {
+            for sa in SUIT_CHARS {
+                for sb in SUIT_CHARS {
+                    let (x, y) = (c(&format!("{}{}", ra, sa)), c(&format!("{}{}", rb, sb)));
+                    if x < y || (ra != rb && x != y) {
+                        if x != y && !combos.contains(&(x.min(y), x.max(y))) {
+                            combos.push((x.min(y), x.max(y)));
+                        }
+                    }
+                }
+            }
+        }
+        let nb = boards.len();
+        let nc = combos.len();
+        let outs = par_map(nb * nc, |k| {
+            let board = b5(boards[k / nc]);
+            let first = combos[k % nc];
+            let mut bad = vec![];
+            let mut n = 0u64;
+            let mut flushy = 0u64;
+            for second in &combos {
+                let disjoint2 = first.0 != second.0 && first.0 != second.1 && first.1 != second.0 && first.1 != second.1;
+                if !disjoint2 {
+                    continue;
+                }
+                let mut tables: Vec<Vec<(u8, u8)>> = vec![vec![first, *second]];
+                // a third player of the first rank pair's kind
+                for third in combos.iter().step_by(5) {
+                    let t = vec![first, *second, *third];
+                    let mut seen = std::collections::BTreeSet::new();
+                    if t.iter().all(|(a, b)| seen.insert(*a) && seen.insert(*b)) {
+                        tables.push(t);
+                    }
+                }
+                for t in tables {
+                    n += 1;
+                    let classes: Vec<u16> = if t.iter().any(|(a, b)| board.contains(a) || board.contains(b)) { vec![] } else { t.iter().map(|(a, b)| m.class7(&[*a, *b, board[0], board[1], board[2], board[3], board[4]])).collect() };
+                    if classes.iter().any(|cl| m.category_of_class(*cl) == 5) {
+                        flushy += 1;
+                    }
+                    if let Some(bv) = check_one(&m, &all, &board, &t, 1.0) {
+                        if bad.len() < 2 {
+                            bad.push((t, bv));
+                        }
+                    }
+                }
+            }
+            (bad, n, flushy)
+        });
+        let mut n = 0u64;
+        let mut fl = 0u64;
+        for (k, (bad, a, b)) in outs.into_iter().enumerate() {
+            n += a;
+            fl += b;
+            for (holes, bv) in bad {
+                viol(&mut rep, "same-ranks-all-suits", &b5(boards[k / nc]), &holes, bv);
+            }
+        }
+        rep.sub("same-ranks-all-suits", "seven boards holding two, three, four and five cards of one suit or a pair x all ordered pairs (and a fifth of the triples) of disjoint combos among AQ, AA and 83 in every suit combination: hands of identical ranks that differ only by making a flush or not. distinct_nontrivial = tables in which somebody holds a flush", n, fl, false, json!({"combos": nc, "boards": nb}));
+    }
+
     // (d) all boards x fixed tuples (collisions included: expect None exactly then)
-    if thorough {
+    {
         let tuples: Vec<Vec<(u8, u8)>> = vec![
             vec![(c("As"), c("Ks")), (c("Qh"), c("Qd"))],
             vec![(c("7c"), c("2d")), (c("7d"), c("2c")), (c("Ah"), c("Kh"))],
@@ -358,9 +424,8 @@ pub fn run(tier: &str) -> i32 {
             }
         }
         rep.sub("all-boards", "all C(52,5) boards x three fixed tables (heads-up, three-way with two identical-rank hands, four-way all-suits T9s); boards containing a hole card must give None. distinct_nontrivial = (board, table) pairs without collision", n, nt, true, json!({}));
-    } else {
-        rep.bound("quick: the all-boards sweep and tables of 9 and 10 players are thorough-only");
     }
+    let _ = thorough;
     rep.bound("boards x tables are structured families, not all boards x all hole-card assignments");
     rep.assume("true strength = M-rank class of the player's seven cards (self-checked reference ranking)");
     rep.finish()
